@@ -84,7 +84,8 @@ class RobustModel(nn.Module):
             assert len(R)==len(weight)
             weight_diag = []
             for w, r in zip(weight, R):
-                w = w.view(*w.shape, 1, 1) if r.shape[-1] == 1 else w
+                if r.shape[-1] == 1 and w.shape[-2:] != (1, 1): # a batch of scalar weights
+                    w = w.view(*w.shape, 1, 1)
                 w = w.expand(r.shape[:-1] + w.shape[-2:])
                 weight_diag += list(w.reshape(-1, w.shape[-2], w.shape[-1]).unbind(0))
             weight_diag = torch.block_diag(*weight_diag)
